@@ -17,6 +17,7 @@ package libp2p
 
 import (
 	"context"
+	crand "crypto/rand"
 	"encoding/json"
 	"errors"
 	"fmt"
@@ -24,6 +25,7 @@ import (
 	"log/slog"
 	"math/rand"
 	"os"
+	"reflect"
 	"runtime"
 	"strconv"
 	"strings"
@@ -31,6 +33,7 @@ import (
 	"sync/atomic"
 	"testing"
 	"time"
+	"unsafe"
 
 	"github.com/ethereum/go-ethereum/common"
 	ethcrypto "github.com/ethereum/go-ethereum/crypto"
@@ -41,17 +44,22 @@ import (
 	"github.com/libp2p/go-libp2p/core/peer"
 	"github.com/libp2p/go-libp2p/p2p/net/swarm"
 	ma "github.com/multiformats/go-multiaddr"
+	handshakepb "github.com/primevprotocol/mev-commit/gen/go/handshake/v1"
 	mockkeysigner "github.com/primevprotocol/mev-commit/pkg/keysigner/mock"
 	"github.com/primevprotocol/mev-commit/pkg/p2p"
+	"github.com/primevprotocol/mev-commit/pkg/p2p/libp2p/internal/handshake"
 	"github.com/prometheus/client_golang/prometheus"
 )
 
 type c17Op struct {
-	K    string // block | query | dial | secured | addrdial | upgraded | accept | list
-	P    int    // peer index
-	D    int64  // block duration in granules (0 = forever)
-	Adv  int64  // granules the clock advances before the call
-	Idle bool   // the advance is real idle time (the driver sleeps) instead of a shift of the stored starts
+	K string // block | query | dial | secured | addrdial | upgraded | accept | list | hsfail
+	//             hsfail (e2e only): a real libp2p host with the identity of peer P connects, opens the handshake
+	//             stream and presents a signature that cannot be verified; handleConnectReq itself places the
+	//             permanent block (event Block P 0)
+	P    int   // peer index
+	D    int64 // block duration in granules (0 = forever)
+	Adv  int64 // granules the clock advances before the call
+	Idle bool  // the advance is real idle time (the driver sleeps) instead of a shift of the stored starts
 }
 
 type c17In struct {
@@ -60,6 +68,10 @@ type c17In struct {
 	Mode string // "" = Service value + gater built by the driver; "e2e" = Service from libp2p.New,
 	//             dial = host.Connect (ops: block, query, dial, list)
 	PT int // e2e: role of the local node (0 bootnode, 1 provider, 2 bidder)
+	// kind of libp2p identity of peer i (absent = 0): 0 secp256k1 (the only kind that yields an Ethereum
+	// address), 1 Ed25519, 2 RSA, 3 ECDSA.  BlockedPeers can only name peers of kind 0, so the Listing
+	// events are projected on those.
+	Kinds []int
 	// Mode "stress" (class concurrent-expiry): Ops is [block P d; block P 0 (Adv > d); query P].  The
 	// permanent block is placed while Q goroutines ask isBlocked / InterceptPeerDial about the peer,
 	// whose timed entry has expired and is not yet purged; repeated Rounds times (or until Budget
@@ -87,32 +99,48 @@ func (c c17Addrs) LocalMultiaddr() ma.Multiaddr  { return c.a }
 func (c c17Addrs) RemoteMultiaddr() ma.Multiaddr { return c.a }
 
 type c17World struct {
-	privs []libp2pcrypto.PrivKey
-	peers []peer.ID
+	privs [4][]libp2pcrypto.PrivKey // by identity kind
+	peers [4][]peer.ID
+	n     int
+	rsaMu sync.Mutex
 	addrs map[common.Address]int
 	log   *slog.Logger
 	cm    c17Addrs
 }
 
 func c17NewWorld(r *rand.Rand, n int) *c17World {
-	w := &c17World{addrs: map[common.Address]int{}, log: slog.New(slog.NewTextHandler(io.Discard, nil))}
-	for i := 0; i < n; i++ {
-		priv, pub, err := libp2pcrypto.GenerateSecp256k1Key(r)
+	w := &c17World{n: n, addrs: map[common.Address]int{}, log: slog.New(slog.NewTextHandler(io.Discard, nil))}
+	add := func(kind int, priv libp2pcrypto.PrivKey, pub libp2pcrypto.PubKey, err error) peer.ID {
 		if err != nil {
 			panic(err)
 		}
-		w.privs = append(w.privs, priv)
 		id, err := peer.IDFromPublicKey(pub)
 		if err != nil {
 			panic(err)
 		}
+		w.privs[kind] = append(w.privs[kind], priv)
+		w.peers[kind] = append(w.peers[kind], id)
+		return id
+	}
+	for i := 0; i < n; i++ {
+		priv, pub, err := libp2pcrypto.GenerateSecp256k1Key(r)
+		id := add(0, priv, pub, err)
 		a, err := GetEthAddressFromPeerID(id)
 		if err != nil {
 			panic(err)
 		}
-		w.peers = append(w.peers, id)
 		w.addrs[a] = i
 	}
+	for i := 0; i < n; i++ {
+		priv, pub, err := libp2pcrypto.GenerateEd25519Key(r)
+		add(1, priv, pub, err)
+	}
+	for i := 0; i < n; i++ {
+		priv, pub, err := libp2pcrypto.GenerateECDSAKeyPair(r)
+		add(3, priv, pub, err)
+	}
+	w.privs[2] = make([]libp2pcrypto.PrivKey, n)
+	w.peers[2] = make([]peer.ID, n)
 	m, err := ma.NewMultiaddr("/ip4/127.0.0.1/tcp/4001")
 	if err != nil {
 		panic(err)
@@ -121,12 +149,173 @@ func c17NewWorld(r *rand.Rand, n int) *c17World {
 	return w
 }
 
+func c17Kind(kinds []int, i int) int {
+	if i >= 0 && i < len(kinds) {
+		return kinds[i]
+	}
+	return 0
+}
+
+// RSA identities are generated on first use (key generation is slow)
+func (w *c17World) ident(kinds []int, i int) (libp2pcrypto.PrivKey, peer.ID) {
+	k := c17Kind(kinds, i)
+	if k == 2 {
+		w.rsaMu.Lock()
+		defer w.rsaMu.Unlock()
+		if w.privs[2][i] == nil {
+			priv, pub, err := libp2pcrypto.GenerateRSAKeyPair(2048, crand.Reader)
+			if err != nil {
+				panic(err)
+			}
+			id, err := peer.IDFromPublicKey(pub)
+			if err != nil {
+				panic(err)
+			}
+			w.privs[2][i], w.peers[2][i] = priv, id
+		}
+	}
+	return w.privs[k][i], w.peers[k][i]
+}
+
 // peers beyond the keyed ones (many-peers class) have synthetic identities
-func (w *c17World) pid(i int) peer.ID {
-	if i >= 0 && i < len(w.peers) {
-		return w.peers[i]
+func (w *c17World) pid(kinds []int, i int) peer.ID {
+	if i >= 0 && i < w.n {
+		_, id := w.ident(kinds, i)
+		return id
 	}
 	return peer.ID(fmt.Sprintf("c17-synthetic-peer-%d", i))
+}
+
+// the peers BlockedPeers can name: those whose identity yields an Ethereum address
+func c17Listable(in c17In) []int {
+	var out []int
+	for i := 0; i < in.NP; i++ {
+		if c17Kind(in.Kinds, i) == 0 {
+			out = append(out, i)
+		}
+	}
+	return out
+}
+
+// --- the block list, reached without naming its key type or the layout of its entries ---------
+// The map is created and read through reflection on the field's own type; entries are only ever
+// placed by the code's own blockPeer.  The key under which a peer is kept is learnt by watching
+// which key a blockPeer call for that peer adds.
+
+var (
+	c17TimeT = reflect.TypeOf(time.Time{})
+	c17DurT  = reflect.TypeOf(time.Duration(0))
+)
+
+func c17BlockMap(s *Service) reflect.Value {
+	f := reflect.ValueOf(s).Elem().FieldByName("blockMap")
+	if !f.IsValid() || f.Kind() != reflect.Map {
+		panic("c17: Service has no map field blockMap")
+	}
+	return reflect.NewAt(f.Type(), unsafe.Pointer(f.UnsafeAddr())).Elem()
+}
+
+func c17ResetMap(s *Service) {
+	s.blockMu.Lock()
+	f := c17BlockMap(s)
+	f.Set(reflect.MakeMap(f.Type()))
+	s.blockMu.Unlock()
+}
+
+func c17NewBare(w *c17World) *Service {
+	s := &Service{logger: w.log, peers: newPeerRegistry()}
+	c17ResetMap(s)
+	return s
+}
+
+// an addressable copy of a map element (struct or pointer to struct) and its field of the given
+// name (or, failing that, its first field of the given type), writable
+func c17Entry(m reflect.Value, k reflect.Value) reflect.Value {
+	cp := reflect.New(m.Type().Elem()).Elem()
+	cp.Set(m.MapIndex(k))
+	return cp
+}
+func c17Field(e reflect.Value, name string, typ reflect.Type) reflect.Value {
+	for e.Kind() == reflect.Ptr {
+		e = e.Elem()
+	}
+	if e.Kind() != reflect.Struct {
+		panic("c17: block list entry is not a struct")
+	}
+	f := e.FieldByName(name)
+	if !f.IsValid() || f.Type() != typ {
+		f = reflect.Value{}
+		for i := 0; i < e.NumField(); i++ {
+			if e.Field(i).Type() == typ {
+				f = e.Field(i)
+				break
+			}
+		}
+	}
+	if !f.IsValid() {
+		panic("c17: block list entry has no field " + name + " of type " + typ.String())
+	}
+	return reflect.NewAt(f.Type(), unsafe.Pointer(f.UnsafeAddr())).Elem()
+}
+
+// the clock advances by d: every stored start moves back by d
+func c17Shift(s *Service, d time.Duration) {
+	s.blockMu.Lock()
+	defer s.blockMu.Unlock()
+	m := c17BlockMap(s)
+	for _, k := range m.MapKeys() {
+		cp := c17Entry(m, k)
+		st := c17Field(cp, "start", c17TimeT)
+		st.Set(reflect.ValueOf(st.Interface().(time.Time).Add(-d)))
+		m.SetMapIndex(k, cp)
+	}
+}
+
+type c17Keys struct {
+	known map[int]reflect.Value
+}
+
+// runs f (a call that may place a block for peer i) and learns the key it adds
+func (t *c17Keys) watch(s *Service, i, limit int, f func()) {
+	if _, have := t.known[i]; have || i < 0 || i >= limit {
+		f()
+		return
+	}
+	before := map[interface{}]bool{}
+	s.blockMu.Lock()
+	for _, k := range c17BlockMap(s).MapKeys() {
+		before[k.Interface()] = true
+	}
+	s.blockMu.Unlock()
+	f()
+	s.blockMu.Lock()
+	for _, k := range c17BlockMap(s).MapKeys() {
+		if !before[k.Interface()] {
+			if t.known == nil {
+				t.known = map[int]reflect.Value{}
+			}
+			t.known[i] = k
+			break
+		}
+	}
+	s.blockMu.Unlock()
+}
+
+// the raw map projected on peers 0..np-1: -1 or the duration of the entry
+func (t *c17Keys) raw(s *Service, np int) []int64 {
+	var out []int64
+	s.blockMu.Lock()
+	defer s.blockMu.Unlock()
+	m := c17BlockMap(s)
+	for i := 0; i < np; i++ {
+		k, have := t.known[i]
+		if !have || !m.MapIndex(k).IsValid() {
+			out = append(out, -1)
+			continue
+		}
+		out = append(out, c17Field(c17Entry(m, k), "duration", c17DurT).Int())
+	}
+	return out
 }
 
 // the Service's log, kept only to attribute a refused inbound connection to the gater
@@ -265,6 +454,59 @@ func c17Inbound(svc *Service, rec *c17Log, h host.Host, slow int) (allowed, conc
 	return false, false
 }
 
+func (l *c17Log) has(text string) bool {
+	l.mu.Lock()
+	defer l.mu.Unlock()
+	for _, ln := range l.recs {
+		if strings.Contains(ln, text) {
+			return true
+		}
+	}
+	return false
+}
+
+// the host h connects to the service, opens the handshake stream and presents a request whose
+// signature cannot be verified.  Conclusive when the service's handler has reported the failed
+// handshake and has returned (so its blockPeer call, if any, is over).
+func c17FailHandshake(svc *Service, rec *c17Log, h host.Host, slow int) bool {
+	target := peer.AddrInfo{ID: svc.host.ID(), Addrs: svc.host.Addrs()}
+	if sw, isSwarm := h.Network().(*swarm.Swarm); isSwarm {
+		sw.Backoff().Clear(target.ID)
+	}
+	rec.reset()
+	ctx, cancel := context.WithTimeout(context.Background(), time.Duration(slow)*3*time.Second)
+	defer cancel()
+	if err := h.Connect(ctx, target); err != nil {
+		return false
+	}
+	str, err := h.NewStream(ctx, target.ID, handshake.ProtocolID())
+	if err != nil {
+		return false
+	}
+	sig := make([]byte, 65)
+	for i := range sig {
+		sig[i] = 0xff
+	}
+	if err := newStream(str, nil, nil).WriteMsg(ctx, &handshakepb.HandshakeReq{
+		PeerType: p2p.PeerTypeBidder.String(), Token: "verif", Sig: sig}); err != nil {
+		return false
+	}
+	deadline := time.Now().Add(time.Duration(slow) * 3 * time.Second)
+	for !rec.has("error handling handshake") {
+		if time.Now().After(deadline) {
+			return false
+		}
+		time.Sleep(2 * time.Millisecond)
+	}
+	if !rec.has("signature verification failed") {
+		return false // the handshake failed for another reason (timeout, reset): no block is due
+	}
+	svc.waitHandshake(h.ID()) // the handler (and the blockPeer call in it) has returned
+	_ = str.Reset()
+	_ = h.Network().ClosePeer(target.ID)
+	return true
+}
+
 // one attempt; ok=false when the real clock did not stay within half a granule
 func c17Try(w *c17World, in c17In) (obs c17Obs, ok bool) {
 	var s *Service
@@ -284,9 +526,23 @@ func c17Try(w *c17World, in c17In) (obs c17Obs, ok bool) {
 			}
 		}()
 	} else {
-		s = &Service{blockMap: make(map[peer.ID]blockInfo), logger: w.log, peers: newPeerRegistry()}
+		s = c17NewBare(w)
 		g = newGater(w.log)
 		g.setBlocker(s)
+	}
+	keys := &c17Keys{}
+	intruder := func(i int) host.Host {
+		h, have := intruders[i]
+		if !have {
+			priv, _ := w.ident(in.Kinds, i)
+			var err error
+			h, err = golibp2p.New(golibp2p.Identity(priv), golibp2p.NoListenAddrs)
+			if err != nil {
+				panic(err)
+			}
+			intruders[i] = h
+		}
+		return h
 	}
 	G := in.G
 	var V, c int64
@@ -300,17 +556,12 @@ func c17Try(w *c17World, in c17In) (obs c17Obs, ok bool) {
 			slept += d
 			V += op.Adv
 		} else if op.Adv > 0 {
-			s.blockMu.Lock()
-			for id, bi := range s.blockMap {
-				bi.start = bi.start.Add(-time.Duration(op.Adv * G))
-				s.blockMap[id] = bi
-			}
-			s.blockMu.Unlock()
+			c17Shift(s, time.Duration(op.Adv*G))
 			V += op.Adv
 		}
-		p := w.pid(op.P)
+		p := w.pid(in.Kinds, op.P)
 		st := c17Step{Ans: []int64{}}
-		if op.K == "block" {
+		if op.K == "block" || op.K == "hsfail" {
 			c += 2
 			st.T = V*G + c
 		} else {
@@ -318,7 +569,13 @@ func c17Try(w *c17World, in c17In) (obs c17Obs, ok bool) {
 		}
 		switch op.K {
 		case "block":
-			s.blockPeer(p, time.Duration(op.D*G), "verif")
+			keys.watch(s, op.P, w.n, func() { s.blockPeer(p, time.Duration(op.D*G), "verif") })
+		case "hsfail":
+			done := false
+			keys.watch(s, op.P, w.n, func() { done = c17FailHandshake(s, rec, intruder(op.P), slow) })
+			if !done {
+				return c17Obs{}, false // environment trouble: no verdict from this attempt
+			}
 		case "query":
 			st.Ans = append(st.Ans, c17B(s.isBlocked(p)))
 		case "dial":
@@ -329,16 +586,7 @@ func c17Try(w *c17World, in c17In) (obs c17Obs, ok bool) {
 			}
 		case "secured":
 			if in.Mode == "e2e" {
-				h, have := intruders[op.P]
-				if !have {
-					var err error
-					h, err = golibp2p.New(golibp2p.Identity(w.privs[op.P]), golibp2p.NoListenAddrs)
-					if err != nil {
-						panic(err)
-					}
-					intruders[op.P] = h
-				}
-				allowed, conclusive := c17Inbound(s, rec, h, slow)
+				allowed, conclusive := c17Inbound(s, rec, intruder(op.P), slow)
 				if !conclusive {
 					return c17Obs{}, false // environment trouble: no verdict from this attempt
 				}
@@ -354,13 +602,17 @@ func c17Try(w *c17World, in c17In) (obs c17Obs, ok bool) {
 		case "accept":
 			st.Ans = append(st.Ans, c17B(g.InterceptAccept(w.cm)))
 		case "list":
-			codes := make([]int64, in.NP)
+			lp := c17Listable(in)
+			codes := make([]int64, len(lp))
 			for _, bi := range s.BlockedPeers() {
-				if i, found := w.addrs[bi.Peer]; found && i < in.NP {
-					if bi.Duration == "Forever" {
-						codes[i] = 2
-					} else {
-						codes[i] = 1
+				i, found := w.addrs[bi.Peer]
+				for j, q := range lp {
+					if found && q == i {
+						if bi.Duration == "Forever" {
+							codes[j] = 2
+						} else {
+							codes[j] = 1
+						}
 					}
 				}
 			}
@@ -368,15 +620,7 @@ func c17Try(w *c17World, in c17In) (obs c17Obs, ok bool) {
 		default:
 			panic("c17: unknown op " + op.K)
 		}
-		s.blockMu.Lock()
-		for i := 0; i < in.NP; i++ {
-			if bi, found := s.blockMap[w.peers[i]]; found {
-				st.Raw = append(st.Raw, int64(bi.duration))
-			} else {
-				st.Raw = append(st.Raw, -1)
-			}
-		}
-		s.blockMu.Unlock()
+		st.Raw = keys.raw(s, in.NP)
 		obs.Steps = append(obs.Steps, st)
 	}
 	return obs, time.Since(begin)-slept < time.Duration(G/2)
@@ -391,9 +635,10 @@ func c17Stress(w *c17World, in c17In) (c17Obs, bool) {
 		runtime.GOMAXPROCS(0) < 2 {
 		return c17Obs{}, false
 	}
-	p := w.pid(in.Ops[0].P)
+	p := w.pid(in.Kinds, in.Ops[0].P)
 	G := in.G
-	s := &Service{blockMap: make(map[peer.ID]blockInfo), logger: w.log, peers: newPeerRegistry()}
+	s := c17NewBare(w)
+	keys := &c17Keys{}
 	g := newGater(w.log)
 	g.setBlocker(s)
 	var round, done int64 // round: published round number; done: workers finished in this round
@@ -435,13 +680,9 @@ func c17Stress(w *c17World, in c17In) (c17Obs, bool) {
 	final := int64(1)
 	for r := 1; r <= in.Rounds; r++ {
 		// an expired, not yet purged timed entry
-		s.blockMu.Lock()
-		for id := range s.blockMap {
-			delete(s.blockMap, id)
-		}
-		s.blockMap[p] = blockInfo{reason: "verif", start: time.Now().Add(-time.Duration(in.Ops[1].Adv * G)),
-			duration: time.Duration(in.Ops[0].D * G)}
-		s.blockMu.Unlock()
+		c17ResetMap(s)
+		keys.watch(s, in.Ops[0].P, w.n, func() { s.blockPeer(p, time.Duration(in.Ops[0].D*G), "verif") })
+		c17Shift(s, time.Duration(in.Ops[1].Adv*G))
 		atomic.StoreInt64(&done, 0)
 		atomic.StoreInt64(&round, int64(r))
 		for atomic.LoadInt64(&done) < int64(in.Q+1) {
@@ -458,19 +699,7 @@ func c17Stress(w *c17World, in c17In) (c17Obs, bool) {
 	}
 	close(stop)
 	wg.Wait()
-	raw := func() []int64 {
-		var out []int64
-		s.blockMu.Lock()
-		defer s.blockMu.Unlock()
-		for i := 0; i < in.NP; i++ {
-			if bi, found := s.blockMap[w.pid(i)]; found {
-				out = append(out, int64(bi.duration))
-			} else {
-				out = append(out, -1)
-			}
-		}
-		return out
-	}
+	raw := func() []int64 { return keys.raw(s, in.NP) }
 	first := make([]int64, in.NP)
 	for i := range first {
 		first[i] = -1
@@ -518,6 +747,10 @@ func c17Coq(id int, in c17In, obs c17Obs) string {
 	for i := 0; i < in.NP; i++ {
 		ps = append(ps, coqN(uint64(i)))
 	}
+	var lps []string
+	for _, i := range c17Listable(in) {
+		lps = append(lps, coqN(uint64(i)))
+	}
 	var evs []string
 	for i, op := range in.Ops {
 		st := obs.Steps[i]
@@ -527,6 +760,8 @@ func c17Coq(id int, in c17In, obs c17Obs) string {
 		switch op.K {
 		case "block":
 			ev = coqApp("Block", p, coqZ(op.D*in.G), t)
+		case "hsfail":
+			ev = coqApp("Block", p, coqZ(0), t)
 		case "query":
 			ev = coqApp("Query", p, t)
 		case "dial":
@@ -541,7 +776,7 @@ func c17Coq(id int, in c17In, obs c17Obs) string {
 			// the limiter's verdict is an oracle: it is what the call answered
 			ev = coqApp("Accept", coqBool(len(st.Ans) == 1 && st.Ans[0] == 1), t)
 		case "list":
-			ev = coqApp("Listing", coqList(ps), t)
+			ev = coqApp("Listing", coqList(lps), t)
 		}
 		evs = append(evs, "("+ev+", "+c17Zs(st.Ans)+", "+c17Zs(st.Raw)+")")
 	}
@@ -586,8 +821,35 @@ func c17Ask(r *rand.Rand, p int, adv int64) []c17Op {
 	}
 }
 
+// identity kinds of the peers of a generated case: all secp256k1 in a third of the cases, otherwise
+// mixed (Ed25519 most often; RSA rarely, its keys are slow to make)
+func c17GenKinds(r *rand.Rand, np int) []int {
+	if r.Intn(3) == 0 {
+		return nil
+	}
+	ks := make([]int, np)
+	for i := range ks {
+		switch r.Intn(8) {
+		case 0, 1, 2:
+			ks[i] = 0
+		case 3, 4, 5:
+			ks[i] = 1
+		case 6:
+			ks[i] = 3
+		default:
+			if r.Intn(8) == 0 {
+				ks[i] = 2
+			} else {
+				ks[i] = 1
+			}
+		}
+	}
+	return ks
+}
+
 func c17GenRandom(r *rand.Rand) c17In {
 	in := c17In{G: int64(100 * time.Millisecond), NP: 3}
+	in.Kinds = c17GenKinds(r, in.NP)
 	n := 3 + r.Intn(12)
 	for len(in.Ops) < n {
 		p := r.Intn(in.NP)
@@ -603,6 +865,7 @@ func c17GenRandom(r *rand.Rand) c17In {
 // several blocks on one peer, then questions around the ends of their terms
 func c17GenReblock(r *rand.Rand) c17In {
 	in := c17In{G: int64(100 * time.Millisecond), NP: 3}
+	in.Kinds = c17GenKinds(r, in.NP)
 	p := r.Intn(in.NP)
 	var ends []int64 // absolute ends of the placed timed blocks, in granules
 	var V int64
@@ -647,6 +910,7 @@ func c17GenReblock(r *rand.Rand) c17In {
 // a permanent block followed by timed ones (the repaired defect), asked after the timed term
 func c17GenPermThenTimed(r *rand.Rand) c17In {
 	in := c17In{G: int64(100 * time.Millisecond), NP: 3}
+	in.Kinds = c17GenKinds(r, in.NP)
 	p := r.Intn(in.NP)
 	d := []int64{1, 2, 10, 1200, 3000}[r.Intn(5)]
 	in.Ops = append(in.Ops, c17Op{K: "block", P: p, D: 0})
@@ -665,14 +929,22 @@ func TestVerifC17(t *testing.T) {
 	w := c17NewWorld(rand.New(rand.NewSource(17)), 4)
 	skipped := 0
 	run := func(class string, in c17In) {
-		if in.G <= 0 || in.NP <= 0 || in.NP > len(w.peers) {
+		if in.G <= 0 || in.NP <= 0 || in.NP > w.n || len(in.Kinds) > in.NP {
 			return
+		}
+		for _, k := range in.Kinds {
+			if k < 0 || k > 3 {
+				return
+			}
 		}
 		for _, op := range in.Ops {
 			if op.P < 0 || (op.P >= in.NP && !(in.Mode == "many" && op.K == "block" && op.P < 100000)) || op.D < 0 || op.Adv < 0 {
 				return
 			}
-			if in.Mode == "e2e" && op.K != "block" && op.K != "query" && op.K != "dial" && op.K != "list" && op.K != "secured" {
+			if in.Mode == "e2e" && op.K != "block" && op.K != "query" && op.K != "dial" && op.K != "list" && op.K != "secured" && op.K != "hsfail" {
+				return
+			}
+			if op.K == "hsfail" && in.Mode != "e2e" {
 				return
 			}
 			if op.Idle && (in.Mode != "e2e" || op.Adv > 12) {
@@ -756,6 +1028,31 @@ func TestVerifC17(t *testing.T) {
 			{K: "block", P: 1, D: 12}, {K: "dial", P: 0, Adv: 12 - int64(e.rng.Intn(2))}, {K: "query", P: 0},
 			{K: "secured", P: 1, Adv: 1}, {K: "query", P: 1}, {K: "dial", P: 0}, {K: "query", P: 0}, {K: "list"}}})
 	}
+	// peers whose libp2p identity is not secp256k1 (no Ethereum address can be derived from the id):
+	// blocks on them hold like any other; only the listing cannot name them
+	for kind := 1; kind <= 3; kind++ {
+		run("other-identity", c17In{G: G, NP: 2, Kinds: []int{kind, 0}, Ops: []c17Op{{K: "query", P: 0}, {K: "block", P: 0, D: 0},
+			{K: "query", P: 0}, {K: "dial", P: 0}, {K: "query", P: 0}, {K: "secured", P: 0}, {K: "query", P: 0},
+			{K: "block", P: 1, D: 10}, {K: "list"}, {K: "block", P: 0, D: 1}, {K: "query", P: 0, Adv: 3000}, {K: "query", P: 1},
+			{K: "secured", P: 0}, {K: "query", P: 0}, {K: "list"}}})
+		run("other-identity", c17In{G: G, NP: 2, Kinds: []int{0, kind}, Ops: []c17Op{{K: "block", P: 1, D: 1200},
+			{K: "query", P: 1}, {K: "dial", P: 1, Adv: 1199}, {K: "query", P: 1}, {K: "block", P: 1, D: 0, Adv: 2},
+			{K: "secured", P: 1, Adv: 3000}, {K: "query", P: 1}, {K: "query", P: 0}, {K: "list"}}})
+	}
+	// end to end, failed authentication: a real host (secp256k1, Ed25519, RSA or ECDSA identity) fails the
+	// handshake with an unverifiable signature; handleConnectReq places the block itself; the peer comes
+	// back and must be refused by the host's gater, now and after any amount of time
+	for pt := 0; pt <= 2; pt++ {
+		kind := []int{1, 2, 3}[pt]
+		if pt == 2 && e.rng.Intn(2) == 0 {
+			kind = 1
+		}
+		run("e2e-hsfail", c17In{G: GE, NP: 2, Mode: "e2e", PT: pt, Kinds: []int{0, kind}, Ops: []c17Op{{K: "secured", P: 1},
+			{K: "query", P: 1}, {K: "hsfail", P: 1}, {K: "query", P: 1}, {K: "secured", P: 1}, {K: "query", P: 1},
+			{K: "dial", P: 1}, {K: "query", P: 1}, {K: "hsfail", P: 0}, {K: "query", P: 0}, {K: "secured", P: 0},
+			{K: "query", P: 0}, {K: "list"}, {K: "secured", P: 1, Adv: 13 + int64(e.rng.Intn(3000))}, {K: "query", P: 1},
+			{K: "dial", P: 0}, {K: "query", P: 0}, {K: "list"}}})
+	}
 	// concurrent-expiry: a permanent block placed while several goroutines ask about the peer, whose
 	// timed entry has run out and is still in the map
 	if runtime.GOMAXPROCS(0) >= 2 {
@@ -764,7 +1061,7 @@ func TestVerifC17(t *testing.T) {
 			rounds, budget = 400000, 8000
 		}
 		run("concurrent-expiry", c17In{G: int64(100 * time.Millisecond), NP: 1, Mode: "stress", Rounds: rounds, Q: 3 + e.rng.Intn(3),
-			Budget: budget, Ops: []c17Op{{K: "block", P: 0, D: 1}, {K: "block", P: 0, D: 0, Adv: 2}, {K: "query", P: 0}}})
+			Kinds: []int{e.rng.Intn(2)}, Budget: budget, Ops: []c17Op{{K: "block", P: 0, D: 1}, {K: "block", P: 0, D: 0, Adv: 2}, {K: "query", P: 0}}})
 	}
 	// many-peers: thousands of distinct peers are blocked; the ones blocked first stay blocked
 	{
@@ -774,7 +1071,7 @@ func TestVerifC17(t *testing.T) {
 		if e.Tier == "thorough" {
 			n = 20000
 		}
-		in := c17In{G: int64(10 * time.Second), NP: 4, Mode: "many"}
+		in := c17In{G: int64(10 * time.Second), NP: 4, Mode: "many", Kinds: []int{0, 1, 3, 0}}
 		for i := 0; i < n; i++ {
 			d := int64(0)
 			if i >= 4 && i%7 == 0 {
@@ -801,7 +1098,7 @@ func TestVerifC17(t *testing.T) {
 				ops := append([]c17Op{}, prefix...)
 				ops = append(ops, c17Op{K: "query", P: 0, Adv: adv}, c17Op{K: "block", P: 0, D: 1}, c17Op{K: "list"},
 					c17Op{K: "dial", P: 0, Adv: 1}, c17Op{K: "query", P: 0}, c17Op{K: "secured", P: 1}, c17Op{K: "query", P: 1})
-				run("exhaustive", c17In{G: int64(100 * time.Millisecond), NP: 2, Ops: ops})
+				run("exhaustive", c17In{G: int64(100 * time.Millisecond), NP: 2, Kinds: []int{int(adv) % 2, (len(prefix) + 1) % 2}, Ops: ops})
 			}
 		}
 		if depth == L {
